@@ -202,8 +202,69 @@ def explore(ck: Check, n_trees: int) -> None:
         kind = duplicate_names(rng, root)
         if kind:
             one_tree(ck, root, reqs, impl, inputs, kind, False)
+    two_layout_files(ck, max(8, n_trees // 12))
     model = ck.driver.run(reqs)
     ck.compare_streams("generated schema / navigation vs Layout.emit / Layout.navRecord", inputs, impl, model)
+
+
+def two_layout_files(ck: Check, n: int) -> None:
+    """A file described by two layouts (a header record, then detail records of another length): the sheet is bound to the header
+    layout, the first row is taken, the sheet is bound to the detail layout and the remaining rows are taken.  Every item of every
+    row is at the bytes ITS layout assigns -- also for a row that is first looked at after the sheet has moved on, and for the rows
+    that follow it (EBCDIC without length headers: each record starts where the previous one ended; native text lines)."""
+    import io
+
+    from stingray.workbook import COBOL_EBCDIC_File, COBOL_Text_File
+
+    rng = ck.rng
+    for k in range(n):
+        trees = []
+        text_mode = k % 3 == 2
+        for _ in range(2):
+            tg = TreeGen(rng, max_depth=2, max_width=3, fillers=False, display_only=text_mode)
+            root = tg.record()
+            trees.append((root, render([root]), spec_layout(root, {})))
+        (ra, ta, sa), (rb, tb, sb) = trees
+        la, lb = sa[()][1], sb[()][1]
+        if la == lb:
+            continue
+        mk = (lambda n_, salt: "".join(chr(0x21 + ((i * 7 + salt * 13 + (i >> 3)) % 90)) for i in range(n_))) if text_mode else \
+             (lambda n_, salt: bytes(((i * 7 + salt * 31) ^ (i >> 3)) & 0xFF for i in range(n_)))
+        recs = [mk(la, 1), mk(lb, 2), mk(lb, 3)]
+        look_first = k % 2 == 0        # whether the header row is looked at before the sheet moves on
+        inp = {"header_copybook": ta, "detail_copybook": tb, "records": [la, lb, lb], "source": "text lines" if text_mode else "EBCDIC, no length headers",
+               "header_row_read_before_rebinding": look_first}
+        ck.case(("two-layouts", ta, tb, text_mode, look_first), feature="two-layout-file/" + ("text" if text_mode else "ebcdic"))
+        ck.oracle_evaluations += 1
+        try:
+            scha, schb = load(build_docs(ta)[0]), load(build_docs(tb)[0])
+            if text_mode:
+                wb = COBOL_Text_File("x.txt", file_object=io.StringIO("".join(r + "\n" for r in recs)))
+            else:
+                wb = COBOL_EBCDIC_File("x.data", file_object=io.BytesIO(b"".join(recs)))
+            sheet = wb.sheet("")
+            sheet.set_schema(scha)
+            rows = sheet.rows()
+            r0 = next(rows)
+            early = {p: impl_range(r0.nav, p) for p in sa} if look_first else None
+            sheet.set_schema(schb)
+            r1 = next(rows)
+            r2 = next(rows)
+            for row, spec, rec, label in ((r0, sa, recs[0], "header row"), (r1, sb, recs[1], "first detail row"), (r2, sb, recs[2], "second detail row")):
+                for p in spec:
+                    want = f"{spec[p][0]}:{spec[p][1]}"
+                    got = impl_range(row.nav, p)
+                    if got != want:
+                        ck.fail("layout", f"two-layout file, {label}: path {path_token(p)} is read from {got}, its layout assigns {want}", {**inp, "path": path_token(p)})
+                        raise StopIteration
+                    raw = nav_path(row.nav, p).raw()
+                    if raw != rec[spec[p][0]:spec[p][1]]:
+                        ck.fail("layout", f"two-layout file, {label}: raw() of {path_token(p)} is not bytes {want} of that record", {**inp, "path": path_token(p)})
+                        raise StopIteration
+        except StopIteration:
+            pass
+        except BaseException as ex:  # noqa: BLE001
+            ck.fail("layout", f"two-layout file: reading raises {type(ex).__name__}: {str(ex)[:100]}", inp)
 
 
 def run(ck: Check) -> int:
